@@ -1,5 +1,8 @@
 mod ctl;
 mod elines;
+mod elines2;
+mod gram;
+mod tags;
 mod eproj;
 mod model;
 mod sched;
@@ -56,6 +59,11 @@ fn dispatch(prop: &str, tier: &str) -> i32 {
     }
     match prop {
         "C01" => elines::run_c01(tier),
+        "C12" => elines2::run_c12(tier),
+        "C13" => elines2::run_c13(tier),
+        "C16" => elines2::run_c16(tier),
+        "C15" => gram::run_c15(tier),
+        "C14" => tags::run_c14(tier),
         "C02" | "C03" | "C05" => sched::run_property(prop, tier),
         _ => {
             eprintln!("unknown property {prop}");
@@ -68,6 +76,9 @@ fn dispatch_replay(prop: &str, v: &serde_json::Value) -> bool {
     match v["case"]["engine"].as_str().or(v["engine"].as_str()).unwrap_or("") {
         "S" => sched::replay(prop, v),
         "E-lines" => elines::replay(v),
+        "E-lines2" => elines2::replay(v),
+        "U-gram" => gram::replay(v),
+        "U-tag" => tags::replay(v),
         e => {
             eprintln!("unknown engine {e:?} in replay file");
             std::process::exit(2);
